@@ -84,12 +84,26 @@ type callSite struct {
 }
 
 var (
-	fset   = token.NewFileSet()
-	funcs  = map[string]*funcInfo{}
-	gos    []string
-	notes  []string
-	clocks []string // "function -> what it asks the clock": wall-clock reads, timers, tickers, I/O deadlines
+	fset    = token.NewFileSet()
+	funcs   = map[string]*funcInfo{}
+	gos     []string
+	notes   []string
+	clocks  []string // "function -> what it asks the clock": wall-clock reads, timers, tickers, I/O deadlines
+	digests []string // "function -> digest function it calls": hash/*, crypto/*, third-party hashes
 )
+
+// isDigestPkg: packages whose functions turn a string into a (shorter) digest
+func isDigestPkg(path string) bool {
+	if path == "hash" || strings.HasPrefix(path, "hash/") || strings.HasPrefix(path, "crypto/") {
+		return true
+	}
+	for _, w := range []string{"xxhash", "murmur", "siphash", "highwayhash", "cityhash", "farmhash", "metrohash", "blake", "fnv"} {
+		if strings.Contains(strings.ToLower(path), w) {
+			return true
+		}
+	}
+	return false
+}
 
 // wall-clock dependent entry points of package time
 var wallClock = map[string]bool{"Now": true, "Since": true, "Until": true, "After": true, "AfterFunc": true, "NewTimer": true,
@@ -127,6 +141,17 @@ func clockScan(pkg *types.Package, info *types.Info, files []*ast.File) {
 					return true
 				}
 				path := fn.Pkg().Path()
+				if isDigestPkg(path) {
+					// the models identify series, cache entries and names by their full strings; a digest in their place is
+					// an assumption of no collisions that Digest obligations do not grant
+					callee := strings.TrimPrefix(path, module+"/") + "." + fn.Name()
+					if recv := fn.Type().(*types.Signature).Recv(); recv != nil {
+						if _, n := typeKey(recv.Type()); n != nil {
+							callee = path + "." + n.Obj().Name() + "." + fn.Name()
+						}
+					}
+					digests = append(digests, name+" -> "+callee)
+				}
 				switch {
 				case path == "time" && wallClock[fn.Name()] && fn.Type().(*types.Signature).Recv() == nil:
 					clocks = append(clocks, name+" -> time."+fn.Name())
@@ -264,6 +289,44 @@ func lvalueSelectors(e ast.Expr, out *[]*ast.SelectorExpr) {
 	}
 }
 
+func isPointer(t types.Type) bool {
+	_, ok := t.Underlying().(*types.Pointer)
+	return ok
+}
+
+// pkgVar: the identifier names a package-level variable of one of the repository's own packages
+// (shared by every goroutine; no lock is associated with it by declaration)
+func pkgVar(info *types.Info, id *ast.Ident) string {
+	v, ok := info.Uses[id].(*types.Var)
+	if !ok || v.Pkg() == nil || v.IsField() || v.Parent() != v.Pkg().Scope() {
+		return ""
+	}
+	if !strings.HasPrefix(v.Pkg().Path(), module) {
+		return ""
+	}
+	return "var " + relPkg(v.Pkg()) + "." + v.Name()
+}
+
+// base identifier of an lvalue like v, v[k], v.f, *v
+func lvalueBase(e ast.Expr) *ast.Ident {
+	for {
+		switch v := e.(type) {
+		case *ast.Ident:
+			return v
+		case *ast.IndexExpr:
+			e = v.X
+		case *ast.StarExpr:
+			e = v.X
+		case *ast.ParenExpr:
+			e = v.X
+		case *ast.SelectorExpr:
+			e = v.X
+		default:
+			return nil
+		}
+	}
+}
+
 func (w *walker) markWrite(e ast.Expr) {
 	var sels []*ast.SelectorExpr
 	lvalueSelectors(e, &sels)
@@ -271,6 +334,13 @@ func (w *walker) markWrite(e ast.Expr) {
 		if trackedField(w.fi.info, s) != "" {
 			w.wroot[s] = true
 			return // the outermost tracked field on the path is the one written
+		}
+	}
+	if id := lvalueBase(e); id != nil && pkgVar(w.fi.info, id) != "" {
+		// an assignment to the variable itself, to an element of it (map, slice, array) or to a field of a struct value;
+		// through a pointer variable (v.f with v a pointer) it is the pointee that is written: only "v = ..." counts then
+		if v := w.fi.info.Uses[id].(*types.Var); e == ast.Expr(id) || !isPointer(v.Type()) {
+			w.wroot[id] = true
 		}
 	}
 }
@@ -433,6 +503,11 @@ func (w *walker) node(n ast.Node) {
 			w.record(loc, w.wroot[v], v.Pos())
 		}
 		w.node(v.X)
+		return
+	case *ast.Ident:
+		if loc := pkgVar(w.fi.info, v); loc != "" {
+			w.record(loc, w.wroot[v], v.Pos())
+		}
 		return
 	case *ast.RangeStmt:
 		w.node(v.X)
@@ -818,6 +893,17 @@ func main() {
 		crows = append(crows, "  ("+coqStr(p[0])+", "+coqStr(p[1])+")")
 	}
 	sb.WriteString(strings.Join(crows, ";\n"))
+	sb.WriteString("\n].\n\n(* calls into digest functions (hash/*, crypto/*, third-party hashes): (function, callee) *)\nDefinition digest_table : list (string * string) := [\n")
+	sort.Strings(digests)
+	var drows []string
+	for i, g := range digests {
+		if i > 0 && digests[i-1] == g {
+			continue
+		}
+		p := strings.SplitN(g, " -> ", 2)
+		drows = append(drows, "  ("+coqStr(p[0])+", "+coqStr(p[1])+")")
+	}
+	sb.WriteString(strings.Join(drows, ";\n"))
 	sb.WriteString("\n].\n\n(* translator notes (unknown external methods are treated as writes) *)\nDefinition translator_notes : list string := [\n")
 	sort.Strings(notes)
 	var nrows []string
